@@ -6,9 +6,10 @@ from fractions import Fraction as Fr
 
 from .common import fhex, ints
 
+IMPL = "c06"
 PROP_FILE = "Properties/C06.v"
 GEN = ["GenC06"]
-RUN_FILES = ["Model/C06_run.v", "Model/C06_rungen.v"]
+RUN_FILES = ["Model/C06_run.v", "Model/C06_rungen.v", "Model/C06_run2.v"]
 
 NAN = float("nan")
 INF = float("inf")
@@ -26,6 +27,13 @@ WIT_PARALLELOGRAM = [0.0, 2.0, 4.0, 2.0, 1.0, 0.0, 5.0, 0.0, 2.0, 1.0]
 
 def isnan(x):
     return x != x
+
+
+def smp(ctx, tag, d, limit=1):
+    """at most `limit` evidence samples per oracle, so that the 16 sample slots show every kind of case"""
+    seen = ctx.__dict__.setdefault("_c06_samples", {})
+    seen[tag] = seen.get(tag, 0) + 1
+    return d if seen[tag] <= limit else None
 
 
 def flist(l):
@@ -429,6 +437,42 @@ def gen_slices(ctx, n):
     return out
 
 
+def gen_limit(ctx, n):
+    """data (for min / max), results to clip, fill value"""
+    r = ctx.rng
+    out = []
+    while len(out) < n:
+        sc = r.choice([1.0, 300.0, 1e7, 1e12, 1e-3])
+        data = [r.uniform(-sc, sc) * r.choice([1, 1, 0.5]) + r.choice([0, sc]) for _ in range(r.randint(1, 8))]
+        if r.random() < 0.3:
+            data.append(NAN)
+        if r.random() < 0.2:
+            data = [data[0]] * 3                                    # constant field
+        vals = [v for v in data if not isnan(v)]
+        lo, hi = min(vals), max(vals)
+        eps = max(1e-6, 1e-15 * max(abs(lo), abs(hi)))
+        res = [r.uniform(lo, hi), lo, hi, lo - eps, hi + eps, lo - eps * (1 + 1e-9) - 1e-300, hi + 2 * eps, NAN, INF, -INF,
+               math.nextafter(hi + eps, INF), math.nextafter(lo - eps, -INF), hi * (1 + 2e-16), 0.0]
+        out.append({"data": data, "res": res, "fill": r.choice([NAN, 0.0, -9999.0]), "chunks": r.choice([1, 3, 100])})
+    return out
+
+
+def gen_scatter(ctx, n):
+    r = ctx.rng
+    out = []
+    while len(out) < n:
+        h, w = r.randint(1, 5), r.randint(1, 5)
+        valid = [r.random() < r.choice([1.0, 0.8, 0.4]) for _ in range(h * w)]
+        if not any(valid):
+            valid[r.randrange(h * w)] = True
+        nv = sum(valid)
+        ndim = r.choice([2, 3])
+        nb = 1 if ndim == 2 else r.randint(1, 4)
+        bands = [[float(100 * b + i) + r.choice([0.0, 0.25]) for i in range(nv)] for b in range(nb)]
+        out.append({"shape": [h, w], "valid": valid, "ndim": ndim, "bands": bands})
+    return out
+
+
 PROJS = {
     "laea": {"proj": "laea", "lat_0": 60, "lon_0": 10, "ellps": "WGS84"},
     "stere": {"proj": "stere", "lat_0": 90, "lon_0": 0, "lat_ts": 60, "ellps": "WGS84"},
@@ -582,15 +626,23 @@ def gen_resample(ctx, n):
 
 # ------------------------------------------------------------------------------------------------ the check
 def run(ctx):
-    ctx.rule = ("kernels: PRNG quadrilaterals in 19 classes (irregular, rectangles exact/noisy, parallel uprights/rows, parallelograms, "
-                "near-parallel 1e-9 noise at 1e6, collinear, duplicate corners, target outside/on an edge, NaN/inf corners, 1e300/1e-300 "
-                "magnitudes, arbitrary points) + the test-suite fixtures + the two Coq witnesses; quadratic/other/resample kernels on "
-                "structured and special-value arguments; corner choice on random and lattice (tie-rich) neighbour tables; look-up tables on "
-                "random validity masks (2-D, 3-D, 1-D sources). Full resamplers: 16 geometry templates (same projection, coincident grids, "
-                "7 projections crossed, lon/lat source and target, rotated/sheared/jittered/bent swaths in 8 orientations, invalid lons, few "
-                "neighbours, small radius, reduce_data) x constant / affine / random fields, 2-D and 3-D, numpy and xarray with several "
-                "data chunkings and PYTROLL_CHUNK_SIZE values. A case is non-trivial when it yields at least one non-NaN fraction pair / "
-                "a found corner / a valid look-up / a produced pixel; distinct = distinct inputs")
+    ctx.rule = ("All cases come from random.Random(VERIF_SEED). KERNELS: quadrilateral + target in 19 classes (irregular, rectangles exact/noisy, "
+                "parallel uprights/rows, parallelograms real/dyadic, near-parallel = 1e-9 noise on coordinates of 1e5..5e6, collinear, duplicate "
+                "corners, target outside / on an edge, NaN/inf corners, 1e300 / 1e-300 magnitudes, arbitrary points, small integers) + the "
+                "fixtures of test_bilinear.py + the two Coq witnesses; _solve_quadratic / _solve_another_fractional_distance / _resample on "
+                "structured and special-value arguments (signed zeros, NaN, inf, subnormals); corner choice on random and on lattice (tie-rich) "
+                "neighbour tables with k in {1,2,4,5,8,12}; look-up tables on random validity masks (2-D, 3-D, 1-D sources); range clip on data "
+                "of magnitude 1e-3..1e12 with results at, just inside and just outside the margin; _reshape_to_target_area on random validity "
+                "patterns (2-D, 3-D). RESAMPLERS: 19 geometry templates (same projection nice/non-nice extents, coincident grids, 7 projections "
+                "crossed, lon/lat source, lon/lat target, geostationary full disc with space pixels, 20 m fan-shaped swath on a degree grid, "
+                "rotated / sheared / jittered / bent swaths in 8 orientations, invalid lons, few neighbours, small radius, reduce_data, integer "
+                "imagery) x constant / affine / random fields, 2-D and 3-D, numpy class, legacy functions and xarray class with several data "
+                "chunkings and PYTROLL_CHUNK_SIZE in {default, 4, 7, 4096}; a repeated call on the same resampler object. "
+                "A case is NON-TRIVIAL when it reaches the interesting branch: a non-NaN (t, s) for kernels, a non-NaN result for scalar "
+                "kernels, at least one found corner, a target with an invalid pixel for scattering, at least one produced pixel for a "
+                "resampler case; every look-up / clip / xarray case counts. DISTINCT = distinct canonical inputs (float.hex of all arguments, "
+                "JSON of the geometry spec) among the non-trivial cases. An affine-exactness alarm is attributed to the known conditioning "
+                "classes iff its size is within the running-error bound of the documented operation sequence (histogram affine_alarm:*)")
     nq = ctx.n(700, 6000)
     quads = gen_quads(ctx, nq)
     quadr = gen_quadratic(ctx, ctx.n(300, 3000))
@@ -599,23 +651,27 @@ def run(ctx):
     corners = gen_corners(ctx, ctx.n(150, 1500))
     slices = gen_slices(ctx, ctx.n(100, 1000))
     rcases = gen_resample(ctx, ctx.n(19, 114))
+    limits = gen_limit(ctx, ctx.n(60, 600))
+    scatters = gen_scatter(ctx, ctx.n(80, 800))
 
     hx = lambda l: [float(v).hex() for v in l]   # noqa: E731
     payload = {"kernels": [hx(q[1]) for q in quads], "quadratic": [hx(q) for q in quadr], "other": [hx(q) for q in other],
                "resample_k": [hx(q) for q in resk],
                "corners": [{"k": c["k"], "in_x": [hx(x) for x in c["in_x"]], "in_y": [hx(x) for x in c["in_y"]],
                             "out_x": hx(c["out_x"]), "out_y": hx(c["out_y"]), "index": c["index"]} for c in corners],
-               "slices": [dict(c, fill=float(c["fill"]).hex()) if "fill" in c else c for c in slices]}
+               "slices": [dict(c, fill=float(c["fill"]).hex()) if "fill" in c else c for c in slices],
+               "limit": [dict(c, data=hx(c["data"]), res=hx(c["res"]), fill=float(c["fill"]).hex()) for c in limits],
+               "scatter": [dict(c, bands=[hx(b) for b in c["bands"]]) for c in scatters]}
     # full resamplers: numpy + xarray in this process, xarray again under other PYTROLL_CHUNK_SIZE values
     with ThreadPoolExecutor(max_workers=6) as ex:
-        f_main = ex.submit(ctx.impl, "c06", payload)
+        f_main = ex.submit(ctx.impl, IMPL, payload)
         groups = [rcases[i::4] for i in range(4)]
-        f_res = [ex.submit(ctx.impl, "c06", {"resample": g}) for g in groups]
+        f_res = [ex.submit(ctx.impl, IMPL, {"resample": g}) for g in groups]
         nx = ctx.n(5, 24)
         xcases = [dict(c, want_numpy=False, chunkings=ch) for c, ch in
                   zip(rcases[:nx], [[[3, 4], [100, 100]], [[1, 5]], [[5, 1], [2, 2]], [[4, 4]], [[7, 3]]] * 5)]
         envs = [{"PYTROLL_CHUNK_SIZE": "4"}, {"PYTROLL_CHUNK_SIZE": "7"}, {"PYTROLL_CHUNK_SIZE": "4096"}]
-        f_x = [ex.submit(ctx.impl, "c06", {"resample": xcases}, 1800, e) for e in envs]
+        f_x = [ex.submit(ctx.impl, IMPL, {"resample": xcases}, 1800, e) for e in envs]
         obs = f_main.result()
         robs = [None] * len(rcases)
         for gi, f in enumerate(f_res):
@@ -630,6 +686,8 @@ def run(ctx):
     check_scalar(ctx, "resample_k", resk, obs["resample_k"], "chk_resample", texts, gen="chk_gen_resample")
     check_corners(ctx, corners, obs["corners"], texts)
     check_slices(ctx, slices, obs["slices"], texts)
+    check_limit(ctx, limits, obs["limit"], texts)
+    check_scatter(ctx, scatters, obs["scatter"], texts)
     check_resamplers(ctx, rcases, robs, texts)
     check_xarray(ctx, rcases, robs, xcases, xobs, envs)
 
@@ -670,7 +728,7 @@ def check_kernels(ctx, quads, k, texts):
         tf, sf = exp[14], exp[15]
         ts1 = (exp[16], exp[17])
         produced = not (isnan(tf) or isnan(sf))
-        ctx.case(("kern", tuple(float(v).hex() for v in q)), nontrivial=produced, sample={"kernel_" + kind: q, "t_s": [tf, sf]})
+        ctx.case(("kern", tuple(float(v).hex() for v in q)), nontrivial=produced, sample=smp(ctx, "kernel", {"kernel_" + kind: q, "t_s": [tf, sf]}, 3) if produced and kind not in ("witness_parallelogram", "irregular") else None)
         ctx.count("kernel:" + kind + (":value" if produced else ":nan"))
         rp = {"oracle": "kernels", "case": [float(v).hex() for v in q], "kind": kind}
         if not (same(tf, ts1[0]) and same(sf, ts1[1])):
@@ -720,7 +778,7 @@ def check_scalar(ctx, name, cases, out, chk, texts, gen=None):
     lines = []
     for c, o in zip(cases, out):
         v = float.fromhex(o)
-        ctx.case((name, tuple(float(x).hex() for x in c)), nontrivial=not isnan(v), sample={name: list(c), "impl": v})
+        ctx.case((name, tuple(float(x).hex() for x in c)), nontrivial=not isnan(v), sample=smp(ctx, name, {name: list(c), "impl": v}) if not isnan(v) else None)
         ctx.count(name + (":value" if not isnan(v) else ":nan"))
         rp = {"oracle": name, "case": [float(x).hex() for x in c]}
         if name == "quadratic" and not isnan(v):
@@ -758,7 +816,7 @@ def check_corners(ctx, cases, out, texts):
             nbs = list(zip(c["in_x"][p], c["in_y"][p], c["index"][p]))
             got = [(float.fromhex(o["pts"][j][0][p]), float.fromhex(o["pts"][j][1][p]), o["index"][p][j]) for j in range(4)]
             found = sum(1 for g in got if not isnan(g[0]))
-            ctx.case(("corner", repr(nbs), ox, oy), nontrivial=found > 0, sample={"corners_of": [ox, oy], "neighbours": nbs[:4], "impl": got})
+            ctx.case(("corner", repr(nbs), ox, oy), nontrivial=found > 0, sample=smp(ctx, "corners", {"corners_of": [ox, oy], "neighbours": nbs[:4], "impl": got}) if found == 4 else None)
             ctx.count("corners:found%d" % found)
             # independent oracle: the first neighbour (distance order) in each open quadrant, else NaN + index of neighbour 0
             tests = [lambda x, y: x < ox and y > oy, lambda x, y: x > ox and y > oy, lambda x, y: x < ox and y < oy, lambda x, y: x > ox and y < oy]
@@ -788,7 +846,7 @@ def check_slices(ctx, cases, out, texts):
         shape, valid, index = c["shape"], c["valid"], c["index"]
         pos = [i for i, v in enumerate(valid) if v]
         ncols = shape[1] if len(shape) == 2 else 0
-        ctx.case(("slices", repr(c)), sample={"slices_shape": shape, "index": index[:2], "impl_y": o["slices_y"][:2], "impl_x": o["slices_x"][:2]})
+        ctx.case(("slices", repr(c)), sample=smp(ctx, "slices", {"slices_shape": shape, "index": index[:2], "impl_y": o["slices_y"][:2], "impl_x": o["slices_x"][:2]}))
         ctx.count("slices:%dd" % len(shape))
         ok = True
         for i, row in enumerate(index):
@@ -825,6 +883,57 @@ def check_slices(ctx, cases, out, texts):
           typ="Z * Z * list bool * list (list Z) * list (list (Z * Z)) * list (list bool)")
     shard("c06_sliced", HDR, "chk_sliced", lines2, "_slice2d/_slice3d", texts,
           typ="list (list (list float)) * float * list (list (Z * Z)) * list (list bool) * list (list (list float))")
+
+
+HDR2 = HDR.replace("Model.C06_run.", "Model.BilinearWrap Model.C06_run Model.C06_run2.")
+
+
+def check_limit(ctx, cases, out, texts):
+    """the range clip of the xarray resampler: oracle (inside the data range => unchanged; NaN => fill) + bit-exact model"""
+    lines = []
+    for c, o in zip(cases, out):
+        vals = [v for v in c["data"] if not isnan(v)]
+        lo, hi = min(vals), max(vals)
+        got = [float.fromhex(h) for h in o]
+        ctx.case(("limit", repr(c)), sample=smp(ctx, "limit", {"limit_data_range": [lo, hi], "res": c["res"][:6], "impl": got[:6]}))
+        ctx.count("limit:" + ("large_magnitude" if max(abs(lo), abs(hi)) >= 2.0 ** 33 else "small_magnitude"))
+        for v, g in zip(c["res"], got):
+            rp = {"oracle": "limit", "case": c}
+            if isnan(v):
+                if not same(g, c["fill"]):
+                    ctx.add_failure("C06.range_clip", "_limit_output_values_to_input maps NaN to %r, fill value is %r" % (g, c["fill"]), rp)
+            elif lo <= v <= hi and not same(g, v):
+                ctx.add_failure("C06.range_clip", "_limit_output_values_to_input changes %r, which lies within the data range [%r, %r], to %r" % (v, lo, hi, g), rp)
+            elif (v < lo - 2e-6 - 2e-15 * max(abs(lo), abs(hi)) or v > hi + 2e-6 + 2e-15 * max(abs(lo), abs(hi))) and not same(g, c["fill"]):
+                ctx.add_failure("C06.range_clip", "_limit_output_values_to_input keeps %r, far outside the data range [%r, %r]" % (v, lo, hi), rp)
+            lines.append("(%s, %s, %s, %s, %s)" % (fhex(lo), fhex(hi), fhex(c["fill"]), fhex(v), fhex(g)))
+    shard("c06_limit", HDR2, "chk_limit", lines, "range clip (_limit_output_values_to_input)", texts)
+
+
+def check_scatter(ctx, cases, out, texts):
+    """_reshape_to_target_area of both classes: results go to the target pixels with valid lon/lat, band by band"""
+    lines = []
+    for c, o in zip(cases, out):
+        valid = c["valid"]
+        want = []
+        for b in c["bands"]:
+            it = iter(b)
+            want.append([next(it) if v else NAN for v in valid])
+        ctx.case(("scatter", repr(c)), nontrivial=not all(valid), sample=smp(ctx, "scatter", {"scatter_valid": valid, "bands": c["bands"], "impl_numpy": o.get("np")}) if not all(valid) and c["ndim"] == 3 else None)
+        ctx.count("scatter:%dd:%s" % (c["ndim"], "all_valid" if all(valid) else "some_invalid"))
+        for name in ("np", "xr"):
+            g = o[name]
+            rp = {"oracle": "scatter", "case": c}
+            if isinstance(g, dict):
+                ctx.add_failure("C06.reshape_to_target." + name, "_reshape_to_target_area raised %s for valid=%s" % (g, valid), rp)
+                continue
+            got = [[float.fromhex(h) for h in b] for b in g]
+            if len(got) != len(want) or any(len(a) != len(b) or not all(same(x, y) for x, y in zip(a, b)) for a, b in zip(got, want)):
+                ctx.add_failure("C06.reshape_to_target." + name, "_reshape_to_target_area (%s) gives %s for bands %s and valid flags %s; every band must be "
+                                "placed on its own at the valid pixels: %s" % (name, got, c["bands"], valid, want), rp)
+            lines.append("(%s, [%s], [%s])" % (blist(valid), "; ".join(flist(b) for b in c["bands"]), "; ".join(flist(b) for b in got)))
+    shard("c06_scatter", HDR2, "chk_scatter", lines, "_reshape_to_target_area (both classes)", texts,
+          typ="list bool * list (list float) * list (list float)")
 
 
 def check_resamplers(ctx, cases, obs, texts):
@@ -923,8 +1032,11 @@ def check_resamplers(ctx, cases, obs, texts):
                                     "target is %r (error %.3g of the field's range; (t, s) = (%r, %r)) [%s; rounding bound of the documented formulas %.3g of the range]" % (
                                         tpl, i, x, y, P, vals["affine"], want, err, t, s, cls or "not explained by rounding", bnd / rng_aff), dict(rp, pixel=i))
         ctx.case(("resample", json.dumps(c, sort_keys=True)), nontrivial=produced > 0,
-                 sample={"resample_" + tpl: {"source": c["source"].get("kind"), "shape_src": o["shape_src"], "shape_tgt": o["shape_tgt"]},
-                         "pixels_with_value": produced, "surrounded": sur_n})
+                 sample=smp(ctx, "resample", {"resample_" + tpl: {"source": c["source"], "target": c["target"], "radius": c["radius"],
+                                                                     "neighbours": c["neighbours"]},
+                                              "pixels_with_value": produced, "surrounded": sur_n, "first_values_affine": res["affine"][:4],
+                                              "t_s_first": [o["t"][:2], o["s"][:2]]}, 4)
+                 if tpl in ("cross_proj", "swath_jitter", "invalid_target", "degree_fan", "integer_data") else None)
         ctx.count("resample:" + tpl)
         # 3-D data = the three 2-D results; one-call API = two-step API
         st = res["stack"]
@@ -933,6 +1045,29 @@ def check_resamplers(ctx, cases, obs, texts):
                 ctx.add_failure("C06.3d_vs_2d", "band %d of the 3-D result differs from the 2-D result of the %s field" % (b, k), rp)
         if not all(same(a, bb) for a, bb in zip(res["resample_api"], res["random"])):
             ctx.add_failure("C06.resample_api", "NumpyBilinearResampler.resample differs from get_bil_info + get_sample_from_bil_info", rp)
+        # histories on one object
+        for k_, ok_ in o.get("history", {}).items():
+            ctx.count("history:" + k_)
+            if not ok_:
+                ctx.add_failure("C06.history." + k_, "%s: a second get_sample_from_bil_info on the same resampler object: %s is False" % (tpl, k_), rp)
+        # legacy (deprecated) entry points give what the class gives
+        lg = o.get("legacy")
+        if lg is not None:
+            ctx.count("legacy_api")
+            if "error" in lg:
+                ctx.add_failure("C06.legacy_api", "%s: legacy bilinear functions raised %s" % (tpl, lg), rp)
+            else:
+                if not (all(same(a, bb) for a, bb in zip(lg["t"], o["t"])) and all(same(a, bb) for a, bb in zip(lg["s"], o["s"]))):
+                    ctx.add_failure("C06.legacy_api", "%s: get_bil_info returns other (t, s) than NumpyBilinearResampler" % tpl, rp)
+                for k_ in ("resample_bilinear", "const", "affine", "random"):
+                    ref_ = res["random" if k_ == "resample_bilinear" else k_]
+                    bad = [i for i, (a, bb) in enumerate(zip(lg[k_], ref_)) if not same(a, bb)]
+                    if bad:
+                        clip = k_ == "const" and abs(c["const"]) >= 2.0 ** 33 and all(isnan(lg[k_][i]) for i in bad)
+                        ctx.add_failure("C06.legacy_api" + (".range_clip_large_magnitude" if clip else ""),
+                                        "%s: legacy %s gives %r at pixel %d, NumpyBilinearResampler %r (%d of %d pixels differ)" % (
+                                            tpl, "resample_bilinear" if k_ == "resample_bilinear" else "get_sample_from_bil_info(%s field)" % k_,
+                                            lg[k_][bad[0]], bad[0], ref_[bad[0]], len(bad), len(ref_)), rp)
         # end-to-end correspondence: neighbours (kd-tree + PROJ = oracles) -> model pixel, for a sample of pixels
         if "nb_x" in o:
             k = c["neighbours"]
@@ -978,7 +1113,7 @@ def check_xarray(ctx, rcases, robs, xcases, xobs, envs):
                 continue
             ref = robs[ci].get("np")
             for chunks, fields in o["xr"].items():
-                ctx.case(("xr", env, chunks, json.dumps(c, sort_keys=True)), sample={"xarray_chunks": chunks, "PYTROLL_CHUNK_SIZE": env, "template": c["template"]})
+                ctx.case(("xr", env, chunks, json.dumps(c, sort_keys=True)), sample=smp(ctx, "xarray", {"xarray_chunks": chunks, "PYTROLL_CHUNK_SIZE": env, "template": c["template"]}, 2) if env != "default" else None)
                 ctx.count("xarray:chunk_size=%s" % env)
                 rpx = {"oracle": "xarray", "case": c, "env": env, "chunks": chunks}
                 # every band of the 3-D result is the 2-D result of that band (also on targets with invalid lon/lat pixels)
@@ -994,6 +1129,10 @@ def check_xarray(ctx, rcases, robs, xcases, xobs, envs):
                 bad = [i for i, v in enumerate(fields["const"]) if not isnan(v) and abs(v - c["const"]) > 8 * 2.0 ** -53 * abs(c["const"])]
                 if bad:
                     ctx.add_failure("C06.constant", "xarray: constant field %r resampled to %r at pixel %d" % (c["const"], fields["const"][bad[0]], bad[0]), dict(rpx, field="const"))
+                reuse = fields.pop("reuse:affine", None)
+                if reuse is not None and not all(same(a, bb) for a, bb in zip(reuse, fields["affine"])):
+                    ctx.add_failure("C06.history.xarray_reuse", "%s: the same XArrayBilinearResampler object used again (2-D after 3-D data) gives another "
+                                    "result than a fresh one" % c["template"], dict(rpx, field="reuse"))
                 if ref is None:
                     continue
                 for k, v in fields.items():
@@ -1016,32 +1155,41 @@ def replay(ctx, data):
     n0 = len(ctx.failures)
     if o == "kernels":
         q = [float.fromhex(h) for h in case["case"]]
-        k = ctx.impl("c06", {"kernels": [case["case"]]})["kernels"]
+        k = ctx.impl(IMPL, {"kernels": [case["case"]]})["kernels"]
         check_kernels(ctx, [(case.get("kind", "replay"), q)], k, [])
     elif o in ("quadratic", "other", "resample_k"):
         c = tuple(float.fromhex(h) for h in case["case"])
-        out = ctx.impl("c06", {o: [case["case"]]})[o]
+        out = ctx.impl(IMPL, {o: [case["case"]]})[o]
         check_scalar(ctx, o, [c], out, "", [])
     elif o == "corners":
         c = case["case"]
         hx = lambda l: [float(v).hex() for v in l]   # noqa: E731
-        out = ctx.impl("c06", {"corners": [{"k": c["k"], "in_x": [hx(x) for x in c["in_x"]], "in_y": [hx(x) for x in c["in_y"]],
+        out = ctx.impl(IMPL, {"corners": [{"k": c["k"], "in_x": [hx(x) for x in c["in_x"]], "in_y": [hx(x) for x in c["in_y"]],
                                             "out_x": hx(c["out_x"]), "out_y": hx(c["out_y"]), "index": c["index"]}]})["corners"]
         check_corners(ctx, [c], out, [])
     elif o == "slices":
         c = case["case"]
-        out = ctx.impl("c06", {"slices": [dict(c, fill=float(c["fill"]).hex()) if "fill" in c else c]})["slices"]
+        out = ctx.impl(IMPL, {"slices": [dict(c, fill=float(c["fill"]).hex()) if "fill" in c else c]})["slices"]
         check_slices(ctx, [c], out, [])
+    elif o == "limit":
+        c = case["case"]
+        hx = lambda l: [float(v).hex() for v in l]   # noqa: E731
+        out = ctx.impl(IMPL, {"limit": [dict(c, data=hx(c["data"]), res=hx(c["res"]), fill=float(c["fill"]).hex())]})["limit"]
+        check_limit(ctx, [c], out, [])
+    elif o == "scatter":
+        c = case["case"]
+        out = ctx.impl(IMPL, {"scatter": [dict(c, bands=[[float(v).hex() for v in b] for b in c["bands"]])]})["scatter"]
+        check_scatter(ctx, [c], out, [])
     elif o == "resample":
         c = case["case"]
-        out = ctx.impl("c06", {"resample": [c]})["resample"]
+        out = ctx.impl(IMPL, {"resample": [c]})["resample"]
         check_resamplers(ctx, [c], out, [])
         check_xarray(ctx, [c], out, [], [], [])
     elif o == "xarray":
         c = case["case"]
-        ref = ctx.impl("c06", {"resample": [dict(c, want_xarray=False)]})["resample"]
+        ref = ctx.impl(IMPL, {"resample": [dict(c, want_xarray=False)]})["resample"]
         env = case.get("env", "default")
-        xo = ctx.impl("c06", {"resample": [dict(c, want_numpy=False, chunkings=[json.loads(case["chunks"])] if "chunks" in case else c["chunkings"])]},
+        xo = ctx.impl(IMPL, {"resample": [dict(c, want_numpy=False, chunkings=[json.loads(case["chunks"])] if "chunks" in case else c["chunkings"])]},
                       extra_env=None if env == "default" else {"PYTROLL_CHUNK_SIZE": env})["resample"]
         check_xarray(ctx, [c], ref, [c], [xo], [{"PYTROLL_CHUNK_SIZE": env}])
     return any(f.key == data.get("key") for f in ctx.failures[n0:]) if data.get("key") else len(ctx.failures) > n0
